@@ -398,6 +398,11 @@ pub fn run(ctx: &Ctx) -> Report {
     // s-expressions
     let k = 3;
     let mut ex = exprs_up_to(k, 3);
+    if ctx.tier == Tier::Thorough {
+        let four: Vec<Ex> = exprs_up_to(4, 3).into_iter().skip(ex.len()).step_by(7).collect();
+        rep.bound("s_expressions_4_connectives", json!({"trees": four.len(), "rule": "every 7th tree with exactly 4 connectives"}));
+        ex.extend(four);
+    }
     ctx.rotate(&mut ex);
     let chunks: Vec<&[Ex]> = ex.chunks(512).collect();
     let fam = par_run(ctx, &chunks, |_, chunk| {
